@@ -34,6 +34,10 @@ int main(void)
 	else ASSUME(a == b && b <= c && c <= ol);
 	rc.obuf_len = ol; rc.oxa = a; rc.oxb = b; rc.oxc = c;
 	rc.max_frag_len = ND_SIZE();
+	/* fields the function might (wrongly) consult are explicit symbolic inputs, so that a counterexample replays natively */
+	rc.iomode = ND_U8();
+	ASSUME(rc.iomode <= 3);
+	rc.incrypt = ND_U8() & 1;
 	br_ssl_engine_new_max_frag_len(&rc, mfl);
 	CHECK(rc.max_frag_len == mfl, "new length recorded");
 	CHECK(rc.oxa == a && rc.oxc == c, "oxa and oxc untouched");
